@@ -354,11 +354,30 @@ def _run_shard(exe, cases, timeout, args, env):
 
 class Results(dict):
     """dict id -> result, remembering the executable that produced it (used for shrinking replays)."""
-    exe = None; args = (); env = None
+    exe = None; args = (); env = None; skipped = False
+
+
+_CURRENT = None     # the Check object of this process (set by Check.__init__)
+
+
+def over_budget():
+    """True once this check has already recorded a failure (oracle failure, correspondence mismatch or broken
+    obligation) AND has used up its wall-time budget: further exploration would only delay the report.  A broken
+    implementation can make every remaining case hang until some watchdog fires; the first failures are enough."""
+    c = _CURRENT
+    if c is None or c.replay:
+        return False
+    budget = float(os.environ.get("VERIF_FAIL_BUDGET_S", "240" if c.tier == "quick" else "1200"))
+    return bool(c.oracle_fail or c.mismatches or c.broken) and (time.time() - c.t0) > budget
 
 
 def run_cases(exe, cases, shards=None, timeout=600, args=(), env=None):
     """Run all cases through exe in parallel shards. Returns dict id -> result."""
+    if over_budget():
+        _CURRENT.notes.append("skipped a run of %d cases through %s: failures already recorded and the wall-time budget is used up" % (len(cases), os.path.basename(exe)))
+        _CURRENT.skipped_runs += 1
+        r = Results(); r.exe, r.args, r.env, r.skipped = exe, tuple(args), env, True
+        return r
     e = dict(SAN_ENV)
     # per-case CPU-time watchdog inside the harness (lib/vharness.hpp): short for ordinary script cases, effectively the
     # shard's wall timeout for runs whose caller announced long-running cases (stress, self-enumeration) by a long timeout
@@ -445,6 +464,9 @@ LIFETIME_KINDS = {"leak-object", "leak-block", "use-dead", "construct-over-live"
 class Check:
     def __init__(self, pid, argv=None):
         self.pid = pid
+        global _CURRENT
+        _CURRENT = self
+        self.skipped_runs = 0
         hold("repo-mode", shared=(REPO == "/repo"))
         argv = sys.argv[1:] if argv is None else argv
         self.tier = os.environ.get("VERIF_TIER", "quick")
@@ -556,6 +578,8 @@ class Check:
         nontrivial(cid, lines, impl_result) -> hashable key or None."""
         if getattr(impl, "exe", None):
             self._impl_exe = (impl.exe, impl.args, impl.env)
+        if getattr(impl, "skipped", False) or getattr(model, "skipped", False):
+            return      # run skipped by over_budget(): nothing to compare, failures are already recorded
         for cid, lines in cases:
             ri = impl.get(cid)
             rm = model.get(cid)
